@@ -101,6 +101,17 @@ def run(ctx):
                      "Proof. vm_compute. reflexivity. Qed.\n"
                      "Theorem C05_no_stray_schema_entries : forallb (fun p => String.eqb (fst p) (schema_name (snd p))) v1_dtypes = true.\nProof. vm_compute. reflexivity. Qed.\n")
         ctx.compile("C05_schema_round_trip_as_written: for each of the 24 built-in dtypes the class name written into the schema is mapped back to the same dtype by the version-1 table as it reads today", t, kind="theorem")
+        (ctx.work / "GenBuildJoins.v").write_text(gen_src.emit_build_joins(gen_src.build_joins()))
+        ctx.compile("T-src: GenBuildJoins.v (how _flatten and _assemble_outputs.helper form and use tensor names, extracted from _build.py) compiles", ctx.work / "GenBuildJoins.v")
+        t2 = ctx.work / "TieBuildRT.v"
+        t2.write_text("From Coq Require Import List String Bool.\nFrom ND Require Import Base.Dtype Ndx.Build Ndx.BuildRT.\nFrom G Require Import GenBuildJoins.\nImport ListNotations.\nOpen Scope string_scope.\n"
+                      "(* what _build.py says today == the model: both recursions extend the ACCUMULATED path with \"_\" and the field name, and read / write the table under that path *)\n"
+                      "Lemma tie_joins : gen_flatten_acc = true /\\ gen_flatten_leaf_by_path = true /\\ gen_assemble_leaf_by_path = true /\\ gen_sep = \"_\".\nProof. repeat split; reflexivity. Qed.\n"
+                      "Lemma tie_assemble : gen_assemble_acc = true.\nProof. reflexivity. Qed.\n"
+                      "Theorem C05_schema_round_trip_of_values_as_written : forall (V : Type) d n (v : vtree V) top, shaped V v d = true -> NoDup (map fst (names n d)) ->\n"
+                      "  assemble V gen_assemble_acc top n d (flatten V n d v) = Some v.\nProof. intros. rewrite tie_assemble. now apply schema_round_trip. Qed.\n"
+                      "Print Assumptions C05_schema_round_trip_of_values_as_written.\n")
+        ctx.compile("C05_schema_round_trip_of_values_as_written: with the name-joining of _flatten / _assemble_outputs.helper as written today, reassembling what was flattened returns the value, for arbitrarily nested struct dtypes with pairwise distinct flattened names", t2, kind="theorem")
     except gen_src.Untranslatable as e:
         ctx.obligation("T-src: _build.py tables inside the translator's whitelist", False, str(e), "tie")
     for f in ("ndonnx/_build.py", "ndonnx/_data_types/aliases.py"):
